@@ -199,8 +199,10 @@ def split_goal(goal, limit=48):
     return out
 
 
-def ground_terms(formulas, limit=10):
-    """ground subterms of sort Key / Int occurring in the formulas (outside quantifiers), smallest first"""
+def ground_terms(formulas, limit=10, sorts=None):
+    """ground subterms of sort Key / Int (and of the extra sorts asked for) occurring in the formulas (outside
+    quantifiers), smallest first"""
+    extra_sorts = sorts or set()
     found = {}
     seen = set()
     stack = list(formulas)
@@ -211,7 +213,7 @@ def ground_terms(formulas, limit=10):
         seen.add(t.get_id())
         if z3.is_app(t):
             srt = t.sort()
-            if (srt == sym.KeyS or srt == z3.IntSort()) and not z3.is_int_value(t):
+            if (srt == sym.KeyS or srt == z3.IntSort() or str(srt) in extra_sorts) and not z3.is_int_value(t):
                 found[t.get_id()] = t
             stack.extend(t.children())
     by_sort = {}
@@ -291,7 +293,17 @@ def instantiate_by_pattern(hyps, sources, cap=120):
 def instantiate_at_goal(hyps, goal_parts, cap=400):
     """sound helper: instances of the universally quantified hypotheses at the ground Key/Int terms of the goal
     (skolem constants first).  Consequences of the hypotheses only - used to spare the solver the E-matching."""
-    terms = ground_terms(goal_parts)
+    wanted = set()
+    for h in hyps:
+        if z3.is_quantifier(h) and h.is_forall() and h.num_vars() <= 2:
+            for i in range(h.num_vars()):
+                vs = h.var_sort(i)
+                if vs.kind() in (z3.Z3_DATATYPE_SORT, z3.Z3_UNINTERPRETED_SORT) and vs != sym.KeyS:
+                    wanted.add(str(vs))
+    terms = ground_terms(goal_parts, sorts=wanted)
+    for k in list(terms):
+        if k in wanted:
+            terms[k] = terms[k][:4]
     if not terms:
         return []
     out = []
@@ -419,6 +431,8 @@ class Run:
         self._feas = None
         self.counters = {}
         self.last_loop = None
+        self.loop_stack = []
+        self.cur_loop = None
 
     # ---- event counters (ghost) ------------------------------------------------------------------
     def counter(self, name):
@@ -700,6 +714,7 @@ class Run:
         ghosts = {}
         lc = LoopCtx(self, it, entry_env, entry_self, ghosts)
         lc.entry_counters = dict(self.counters)
+        self.loop_stack = getattr(self, 'loop_stack', []) + [lc]
         self.cur_loop = lc
         # ghost initial values, iteration ghost at "nothing visited"
         if it.kind == 'seq':
@@ -779,6 +794,8 @@ class Run:
             self.pc.append(lc.done == it.dom)
         lc.exited = True
         self.last_loop = lc
+        self.loop_stack = self.loop_stack[:-1]
+        self.cur_loop = self.loop_stack[-1] if self.loop_stack else None
 
     def havoc_root(self, r):
         if r.startswith('self.'):
@@ -1375,6 +1392,9 @@ class Run:
         self.comp_close(frames)
         self.env = saved
         res.comp_def = (frames[0].index, kt, vt, guard)
+        if vtyp is TNum and not self.qstack:
+            from . import lemmas
+            self.assume(*lemmas.msum_zero(dt, res.dom, res.val))
         return res
 
     # ---- iteration ----------------------------------------------------------------------------------
@@ -1463,6 +1483,11 @@ class Run:
         mod = self.modstack[-1]
         args = [self.ev(a) for a in e.args]
         kwargs = {k.arg: self.ev(k.value) for k in e.keywords}
+        if meth != '__init__' and isinstance(self.env.get('self'), SObj):
+            # a base-class method other than the constructor: by its contract, like any other call
+            key = self.resolve_method(self.env['self'].cls, meth)
+            if key is not None:
+                return self.call_contract(FUNCS[key], self.env['self'], args, kwargs)
         target = find_base_method(mod, cur_cls, meth)
         if target is None:
             return NONE     # object.__init__
@@ -1535,6 +1560,8 @@ class Run:
                         function=self.fspec.key, callee=fs.key)
         # exceptional outcomes allowed by the contract
         for exc, r in fs.raises.items():
+            if exc == 'CallbackError' and not self.opts.fault_mode:
+                continue        # callee failures caused by callbacks are only explored in fault mode
             cond = r['when'](cpre) if r.get('when') else z3.Bool(fresh_name('raises_' + exc))
             self.may_raise(cond, exc, f"from {fs.key}")
         if fs.may_fail and self.opts.fault_mode:
